@@ -96,7 +96,7 @@ def check_case(case):
             res.add(v)
         if rec['x_corr'] != rec['x'] or not all(rec['active']):
             corrected = True
-        if len(res.violations) > 5:
+        if len(res.violations) > 40:
             break
     res.nontrivial = len(ref) >= 2 and corrected
     res.classes.append('ref_empty' if not ref else 'ref_nonempty')
